@@ -309,7 +309,7 @@ func execReplaced(sc *Scenario, env *Env, root string, refs []*lineRef, order []
 		for _, l := range sc.Lines {
 			used = used || (l.World == wi && l.Bad == "")
 		}
-		if used && ((in && !w.Cfg.AutoFert) || ((w.Cfg.AutoIrr || w.Cfg.AutoFert) && len(w.Rot) > 2)) {
+		if used && ((in && !w.Cfg.AutoFert) || ((w.Cfg.AutoIrr || w.Cfg.AutoFert) && len(w.Rot) > 2) || w.Cfg.WeatherLayout != 0) {
 			cands = append(cands, wi)
 		}
 	}
@@ -345,9 +345,42 @@ func execReplaced(sc *Scenario, env *Env, root string, refs []*lineRef, order []
 		}
 		newContent = []byte(w2.AutoFile())
 	}
+	mustSeeNew := false
+	hasFert := false
+	for _, f := range w.Fert {
+		hasFert = hasFert || (f.Day > w.Start() && f.Day < w.Cfg.End)
+	}
+	if w.Cfg.WeatherLayout != 0 && (what == "fertilisation schedule") && (!hasFert || w.Cfg.AutoFert || r.Bool(0.5)) {
+		// the multi-year weather file of the project's station: every run reads it for itself when it starts, so a
+		// run that begins to execute after the replacement runs alone on the new series - and must do so in the session
+		ws2 := w.Weather
+		ws2.Sub = r.U64()
+		ww, ww2 := BuildWeather(&w.Weather, w.Cfg.NoneValue, sc.Grid), BuildWeather(&ws2, w.Cfg.NoneValue, sc.Grid)
+		files := ww2.Files(w.Cfg.WeatherLayout, w.Cfg.NumHeader, w.FCode, w.eol(), ww.Spec.FirstDay, ww.Spec.LastDay, nil, ";")
+		if len(files) == 1 {
+			for name, content := range files {
+				what, mustSeeNew = "weather series", true
+				file = filepath.Join(root, "weather", "wx", name)
+				newContent = []byte(content)
+			}
+		}
+	}
+	if what == "fertilisation schedule" && (!hasFert || w.Cfg.AutoFert) {
+		return plain()
+	}
 	oldContent, err := os.ReadFile(file)
 	if err != nil {
 		return plain()
+	}
+	reads := func(i int) bool {
+		if sc.Lines[i].World != wi {
+			return false
+		}
+		if what != "weather series" {
+			return true
+		}
+		ex := strings.Join(sc.Lines[i].Extra, " ")
+		return !strings.Contains(ex, "fcode=") && !strings.Contains(ex, "WeatherFolder=")
 	}
 	put := func(b []byte) {
 		tmp := file + ".incoming"
@@ -357,8 +390,8 @@ func execReplaced(sc *Scenario, env *Env, root string, refs []*lineRef, order []
 	// references on the new version
 	put(newContent)
 	onNew := map[int]*lineRef{}
-	for i, l := range sc.Lines {
-		if l.World == wi {
+	for i := range sc.Lines {
+		if reads(i) {
 			onNew[i] = freshReference(env, root, sc.lineArgs(i), outIDOf(sc, i))
 			res.add("reference.runs", 1)
 		}
@@ -368,6 +401,9 @@ func execReplaced(sc *Scenario, env *Env, root string, refs []*lineRef, order []
 		if ref == nil || ref.died || ref.crashed != "" {
 			return plain()
 		}
+	}
+	if len(onNew) == 0 {
+		return plain()
 	}
 	probe := run(order, sc.Sched, NewSimDisk(), 0)
 	vs := checkBatchOutcome(sc, order, refs, probe, res, false)
@@ -422,7 +458,7 @@ func execReplaced(sc *Scenario, env *Env, root string, refs []*lineRef, order []
 	res.add("fault.pooled-file-replaced-mid-batch", 1)
 	out.Excused = map[int]string{}
 	for pos, li := range order {
-		if sc.Lines[li].World == wi {
+		if reads(li) {
 			out.Excused[pos] = "reads the " + what + " that is replaced"
 		}
 	}
@@ -458,11 +494,17 @@ func execReplaced(sc *Scenario, env *Env, root string, refs []*lineRef, order []
 		eq := func(ref *lineRef) bool {
 			return ref.success == !failed[id] && (!ref.success || diffFiles(ref.files, got) == "")
 		}
+		startedAt, started := out.StartDec[id]
 		switch {
-		case eq(refs[li]):
+		case mustSeeNew && started && startedAt >= at && !eq(onNew[li]):
+			vs = append(vs, batchViol{"replaced-file", "run-started-after-the-replacement-does-not-see-it", tag + fmt.Sprintf("line %s began to execute at decision %d, when the new %s was in place (a run reads it for itself), but differs from its solo run on it: %s", id, startedAt, what, diffFiles(onNew[li].files, got)), id})
+		case eq(refs[li]) && !(mustSeeNew && started && startedAt >= at):
 			res.add("reach.line-computed-from-the-old-version", 1)
 		case eq(onNew[li]):
 			res.add("reach.line-computed-from-the-new-version", 1)
+			if mustSeeNew && started && startedAt >= at {
+				res.add("reach.run-started-after-the-replacement", 1)
+			}
 		default:
 			vs = append(vs, batchViol{"replaced-file", "run-equals-neither-version", tag + fmt.Sprintf("line %s equals neither its solo run on the old version (%s) nor on the new version (%s)", id, diffFiles(refs[li].files, got), diffFiles(onNew[li].files, got)), id})
 		}
